@@ -1,4 +1,5 @@
 import PV.Driver.HT
+import PV.Driver.HashMD
 import PV.Driver.SB
 import PV.Driver.Tree
 import PV.Driver.Sleep
@@ -10,6 +11,7 @@ import PV.Driver.Locks
 def main (args : List String) : IO UInt32 := do
   match args with
   | ["ht"] => PV.Driver.HT.run; return 0
+  | ["hashmd"] => PV.Driver.HashMD.run; return 0
   | ["sb"] => PV.Driver.SB.run; return 0
   | ["tree"] => PV.Driver.Tree.run; return 0
   | ["sleep"] => PV.Driver.Sleep.run; return 0
